@@ -59,11 +59,17 @@ def run(tier, seed, replay):
     # the lemmas below are about pattern.match(w) for the whole rest of the source: the two
     # parsers must hand exactly that to the patterns, and consume exactly match.end() characters
     import ast
-    WHOLE = "self.file.source[self.__pos:]"
+    def whole_rest(e):
+        """self.file.source[self.<cursor>:] -- the source from the lexer's cursor (whatever the private
+        attribute is called) to its end"""
+        return isinstance(e, ast.Subscript) and ast.unparse(e.value) == "self.file.source" and isinstance(e.slice, ast.Slice) \
+            and e.slice.upper is None and e.slice.step is None and isinstance(e.slice.lower, ast.Attribute) \
+            and isinstance(e.slice.lower.value, ast.Name) and e.slice.lower.value.id == "self"
     for fn in ("parse_integer_literal", "parse_float_literal"):
         f = chk.repo.find_function(f"norminette/lexer/lexer.py:Lexer.{fn}")
-        aliases = {ast.unparse(t) for x in ast.walk(f.node) if isinstance(x, ast.Assign) and ast.unparse(x.value) == WHOLE
+        aliases = {ast.unparse(t) for x in ast.walk(f.node) if isinstance(x, ast.Assign) and whole_rest(x.value)
                    for t in x.targets}
+        WHOLE = next((ast.unparse(x) for x in ast.walk(f.node) if whole_rest(x)), "self.file.source[self.__pos:]")
         args, pops = [], []
         for x in ast.walk(f.node):
             if isinstance(x, ast.Call) and isinstance(x.func, ast.Attribute) and x.func.attr == "match" \
